@@ -486,6 +486,9 @@ func (env *Env) evalCall(cl *Clause, x *ast.CallExpr) Value {
 
 // specCall executes a ghost function symbolically (total semantics, no obligations) and merges its paths.
 func (u *Unit) specCall(st *State, fn *ssa.Function, args []Value) Value {
+	if ct := u.eng.contracts[fnKey(fn)]; ct != nil && ct.Rec {
+		return u.recCall(st, fn, args)
+	}
 	u.specMode++
 	defer func() { u.specMode-- }()
 	base := len(st.pc)
@@ -778,4 +781,121 @@ func (env *Env) safeFormula(cl *Clause, asGoal bool) (t *Term, err error) {
 		}
 	}()
 	return env.formula(cl, asGoal), nil
+}
+
+// ---------- recursive ghost functions ----------
+
+// regionKey: terms identifying the current contents of a region (root id and version, then the index path
+// of nested regions).
+func (u *Unit) regionKey(st *State, r *Region) []*Term {
+	if r == nil {
+		return []*Term{IntK(0)}
+	}
+	if r.parent != nil {
+		k := u.regionKey(st, r.parent)
+		h := int64(0)
+		for _, c := range r.ppath {
+			h = (h*131 + int64(c)) % 1000003
+		}
+		return append(append([]*Term(nil), k...), r.pidx, IntK(h))
+	}
+	rs := u.rstate(st, r)
+	id := r.id
+	if r.lineage != 0 {
+		id = r.lineage
+	}
+	return []*Term{IntK(int64(id)*1000003 + int64(rs.ver))}
+}
+
+func (u *Unit) argTerms(st *State, v Value) ([]*Term, bool) {
+	switch x := v.(type) {
+	case IntV:
+		return []*Term{x.T}, true
+	case BoolV:
+		return []*Term{x.T}, true
+	case SliceV:
+		// ghost recursive functions are prefix functions: they depend on the elements below their bound
+		// argument only, never on len(slice) (assumption A-rec-prefix), so the length is not part of the key
+		return append(u.regionKey(st, x.R), x.Off), true
+	case StringV:
+		return append(u.regionKey(st, x.R), x.Off, x.Len), true
+	case StructV:
+		var out []*Term
+		for _, f := range x.F {
+			t, ok := u.argTerms(st, f)
+			if !ok {
+				return nil, false
+			}
+			out = append(out, t...)
+		}
+		return out, true
+	case SymIface:
+		return append(append(u.regionKey(st, x.R), x.Idx), x.Tag), true
+	}
+	return nil, false
+}
+
+// recCall: an application of a recursive ghost function is an uninterpreted term; its defining equation is
+// assumed once per application (fuel 1), which is what an inductive step k -> k+1 needs.
+func (u *Unit) recCall(st *State, fn *ssa.Function, args []Value) Value {
+	var ts []*Term
+	for _, a := range args {
+		t, ok := u.argTerms(st, a)
+		if !ok {
+			specFail("recursive spec function %s: unsupported argument %T", fn.Name(), a)
+		}
+		ts = append(ts, t...)
+	}
+	rt := fn.Signature.Results().At(0).Type()
+	rs := scalarSort(rt)
+	if rs == nil {
+		specFail("recursive spec function %s: result must be a scalar", fn.Name())
+	}
+	t := UF(fmt.Sprintf("%s/%d", fn.Name(), len(ts)), rs, ts...)
+	mk := func(t *Term) Value {
+		switch {
+		case rs.K == KBool:
+			return BoolV{t}
+		case rs.K == KFP:
+			return FloatV{t, rs.W}
+		}
+		_, sg, _ := intSort(rt)
+		return IntV{t, sg}
+	}
+	if u.recDepth == 0 && !st.unfolded[t.id] {
+		if st.unfolded == nil {
+			st.unfolded = map[int]bool{}
+		}
+		st.unfolded[t.id] = true
+		u.recDepth++
+		u.specMode++
+		base := len(st.pc)
+		s0 := st.clone()
+		outs := u.callFn(s0, fn, args, nil, 1, "")
+		u.specMode--
+		u.recDepth--
+		var acc Value
+		for i := len(outs) - 1; i >= 0; i-- {
+			o := outs[i]
+			cond := True
+			if len(o.st.pc) > base {
+				cond = And(o.st.pc[base:]...)
+			}
+			if acc == nil {
+				acc = o.ret
+				continue
+			}
+			m, ok := mergeValues(cond, o.ret, acc)
+			if !ok {
+				specFail("recursive spec function %s: cannot merge results", fn.Name())
+			}
+			acc = m
+		}
+		if acc != nil {
+			if eq, ok := u.valueEq(st, mk(t), acc); ok {
+				st.assume(eq)
+			}
+		}
+	}
+	return mk(t)
 }
